@@ -1,8 +1,9 @@
 (* Extraction for the "c19" driver (C19 point-set generators).  ExtrOcamlBasic only:
    nat, positive, Z, Q stay the extracted inductive types. *)
-From Koala Require Import Model.Points.
+From Koala Require Import Model.Points Model.PointsGrid.
 Require Extraction.
 Require Import ExtrOcamlBasic.
 Extraction "model.ml"
   mkState init step run_trace run finished normalise bluenoise inside_open_unit hyperuniform_crop
-  hyperuniform uniform out_of_domain far_from_all d2.
+  hyperuniform uniform out_of_domain far_from_all d2
+  run_trace_window cells_after point_to_coord far_from_window far_from_cells hu_final_l hyperuniform_full_l hu_den hu_to_unit max_samples.
